@@ -11,7 +11,7 @@ for pid in sys.argv[1:]:
     t0 = time.time()
     rng = random.Random(seed * 1000003 + int(pid[1:]))
     cases, metas = props.generate(pid, rng, tier)
-    use_mpi = props.PROPS[pid].get('mpi') or pid in ('C02', 'C04', 'C10', 'C12', 'C19', 'C20')
+    use_mpi = props.PROPS[pid].get('mpi') or pid in ('C02', 'C04', 'C10', 'C12', 'C16', 'C19', 'C20')
     if use_mpi and cxm is None: cxm = tie.cxx_build('-DVERIF_MPI', 'mpi')
     res = tie.run_pair(cases, cxm if use_mpi else cx, ml)
     nd = 0
